@@ -592,3 +592,51 @@ func EventGatewayShapes() []*prog.Program {
 	}
 	return out
 }
+
+// BoundaryShapes: activities with 1..2 boundary events of either kind (C10).
+// Normal path: host -> tn -> en ; exception path of boundary i: b_i -> tx_i -> ex_i.
+func BoundaryShapes() []*prog.Program {
+	var out []*prog.Program
+	build := func(name string, kinds []bool, subHost bool) {
+		b := prog.NewBuilder(name)
+		s := b.AddNode("start", "")
+		var host string
+		if subHost {
+			host = wrapSub(b, "", 1, func(sc string) (string, string) { t := b.AddNode("task", sc); return t, t })
+		} else {
+			host = b.AddNode("task", "")
+		}
+		tn := b.AddNode("task", "")
+		en := b.AddNode("end", "")
+		b.Connect(s, host, prog.Cond{})
+		b.Connect(host, tn, prog.Cond{})
+		b.Connect(tn, en, prog.Cond{})
+		for i, intr := range kinds {
+			bd := b.AddNode("boundary", "")
+			b.N(bd).Attached = host
+			b.N(bd).Intr = intr
+			b.N(bd).Evs = sig(string(rune('A' + i)))
+			tx := b.AddNode("task", "")
+			ex := b.AddNode("end", "")
+			b.Connect(bd, tx, prog.Cond{})
+			b.Connect(tx, ex, prog.Cond{})
+			if intr {
+				b.P.Tags = append(b.P.Tags, "boundary-interrupting")
+			} else {
+				b.P.Tags = append(b.P.Tags, "boundary-noninterrupting")
+			}
+		}
+		b.P.Tags = append(b.P.Tags, "boundary")
+		if subHost {
+			b.P.Tags = append(b.P.Tags, "boundary-sub-host", "sub")
+		}
+		out = append(out, b.Done())
+	}
+	build("bnd_i", []bool{true}, false)
+	build("bnd_n", []bool{false}, false)
+	build("bnd_in", []bool{true, false}, false)
+	build("bnd_nn", []bool{false, false}, false)
+	build("bnd_sub_i", []bool{true}, true)
+	build("bnd_sub_n", []bool{false}, true)
+	return out
+}
